@@ -141,4 +141,54 @@ theorem try_consume_is_consume (s : SSt) (n : Nat) : tryConsume s n = consume s 
     consume_link_credit.assign_delivery_count_0, try_consume.assign_link_credit_0,
     consume_link_credit.assign_link_credit_0]
 
+/-- generated obligation: the model's `send` is `consume 1` because the source waits for and takes one
+    credit per delivery -/
+theorem source_one_credit_per_delivery : oneCreditPerDelivery = true := by decide
+
+/-! ### flows buffered by a listener until the link is accepted -/
+
+theorem source_replay_oldest_first : replayOldestFirst = true := by decide
+
+theorem onFlow_no_drain (s : SSt) (f : LFlow) (hd : f.drain = false) :
+    (onFlow s f).1.dc = s.dc ∧ (onFlow s f).1.initDc = s.initDc := by
+  unfold onFlow
+  simp only [sender_on_incoming_flow.cond_if_0, hd, Bool.false_eq_true, if_false]
+  unfold grant
+  cases f.credit <;> simp
+
+theorem replay_no_drain (flows : List LFlow) (hd : ∀ f ∈ flows, f.drain = false) :
+    ∀ (s : SSt), (replay s flows).dc = s.dc ∧ (replay s flows).initDc = s.initDc := by
+  induction flows with
+  | nil => intro s; exact ⟨rfl, rfl⟩
+  | cons f fs ih =>
+    intro s
+    have h1 := onFlow_no_drain s f (hd f List.mem_cons_self)
+    have h2 := ih (fun g hg => hd g (List.mem_cons_of_mem _ hg)) (onFlow s f).1
+    simp only [replay, List.foldl_cons] at h2 ⊢
+    exact ⟨h2.1.trans h1.1, h2.2.trans h1.2⟩
+
+/-- **latest_flow_decides (C08, listener side).** Whatever link flows a receiver pipelined behind its
+    attach (none of them a drain request), once the listener has accepted the link its credit is what
+    the LAST of them grants — the same as if only that flow had arrived — so the sender transmits no
+    more than the receiver's latest flow allows and does not wait when that flow grants credit. -/
+theorem latest_flow_decides (s : SSt) (flows : List LFlow) (f : LFlow) (c : Nat) (hc : f.credit = some c)
+    (hd : ∀ g ∈ flows, g.drain = false) (hf : f.drain = false) :
+    (replayAsSource s (flows ++ [f])).lc = (onFlow s f).1.lc := by
+  simp only [replayAsSource, source_replay_oldest_first, if_true, replay, List.foldl_append, List.foldl_cons,
+    List.foldl_nil]
+  have h := replay_no_drain flows hd s
+  simp only [replay] at h
+  have key : ∀ s' : SSt, s'.dc = s.dc → s'.initDc = s.initDc → (onFlow s' f).1.lc = (onFlow s f).1.lc := by
+    intro s' h1 h2
+    unfold onFlow
+    simp only [sender_on_incoming_flow.cond_if_0, hf, Bool.false_eq_true, if_false]
+    unfold grant
+    simp only [hc, h1, h2]
+  exact key _ h.1 h.2
+
+/-- with the newest applied first (what a seeded `pop` loop does) the OLDEST flow decides: five credits
+    granted and then withdrawn leave the sender with five -/
+example : (replay (attached 0) ([⟨none, some 5, false, false⟩, ⟨none, some 0, false, false⟩] : List LFlow).reverse).lc = 5
+    ∧ (replayAsSource (attached 0) [⟨none, some 5, false, false⟩, ⟨none, some 0, false, false⟩]).lc = 0 := by decide
+
 end Amqp.Credit
